@@ -212,6 +212,17 @@ Definition chk_next (c : chk) (s s' : state) (o : op) : chk :=
           (match rev enq with v :: _ => Some v | [] => ck_last_rm c end)
   end.
 
+(* the application's validator set is every record found in the store: two records holding one
+   consensus key can never be matched by a key-level consensus set; reported where it arises *)
+Definition dup_cons_keys (vals : list (Z * vrec)) : list Z :=
+  dup_keys (map (fun e : Z * vrec => v_cons (snd e)) vals).
+Definition new_duplicates (s s' : state) (o : op) : list string :=
+  let before := dup_cons_keys (st_vals s) in
+  match filter (fun k => negb (smem k before)) (dup_cons_keys (st_vals s')) with
+  | [] => []
+  | _ => ["duplicate-consensus-key:" ++ op_label o]
+  end.
+
 Fixpoint c05_clauses (cfg : config) (c : chk) (s : state) (l : list (op * obs)) : list string :=
   match l with
   | [] => []
@@ -235,7 +246,7 @@ Fixpoint c05_clauses (cfg : config) (c : chk) (s : state) (l : list (op * obs)) 
                     | _ => end_block_clauses (mkChk (st_vals s) [] None) (set_cons s [] (st_halt s)) s' b
                     end
                 | _ => [] end in
-    (here ++ c05_clauses (next_cfg cfg o) (chk_next c s s' o) s' r)%list
+    (here ++ new_duplicates s s' o ++ c05_clauses (next_cfg cfg o) (chk_next c s s' o) s' r)%list
   end.
 
 Definition case_clauses (c : c05_case) : list string :=
